@@ -2889,8 +2889,615 @@ def main():
         old = open(path_).read() if os.path.exists(path_) else None
         if old != t_:
             open(path_, 'w').write(t_)
+    st.update(write_c16_units(repo, outdir))     # part 6: units OpenlistEval, TieBreak (C16)
     json.dump(st, open(os.path.join(outdir, 'STATUS.json'), 'w'), indent=1)
     print(json.dumps(st, indent=1))
+
+
+# ---------------------------------------------------------------- part 6 (C16, wave 7): whole bodies of openlist.ThresholdOpenList.evaluate,
+# core.Tie.any / Tie.break_by_list and openlist.ListOrderTieBreaker.evaluate (units OpenlistEval -> Gen/OpenlistEval.v, TieBreak ->
+# Gen/TieBreak.v; primitives read by Prelude/PyTie.v).  TX7 extends the typed method translator (TX) by
+#    stmt ::= x.sort(key=l.index | d.get [, reverse=b])     x a list built by the function; the exception of the key function (ValueError /
+#                                                           TypeError on None keys) is hoisted like l[i]
+#           | y = x                                          x a list built by the function and never mentioned again: y takes its place
+#           | for t in e: body                               body may contain `break` and operations that raise: a fold whose state is
+#                                                           (stopped?, locals) [+ pyexn]; an iteration after a break / an exception is the identity
+#           | if isinstance(x, Tie): A else: B               x an item of a selection: match x with TieR x => A | Cand x => B end
+#           | D = {} .. D[k] = e | del D[k]                  a dictionary keyed by ties (frozensets compared as sets); del of a missing key: KeyError
+#           | return f(..) for a translated raising function returning candidates where selection items are expected
+#    e ::= D[k] (KeyError hoisted) | k in D | l[n:] | sorted(S, key=l.index) (S a list or a set of candidates: the key is injective, so the
+#          result does not depend on the iteration order of S; ValueError hoisted) | any(isinstance(x, Tie) for x in l)
+#        | p.evaluate(a, ..) for a function-typed attribute p
+#  Everything else is TX; any other node stops the definition (fail closed).
+T_TIE = TS(T_C)
+
+
+def TD(k, v):
+    return ('D', k, v)
+
+
+def coq_type7(t):
+    if isinstance(t, tuple) and t[0] == 'D':
+        return 'list (%s * %s)' % (coq_type7(t[1]), coq_type7(t[2]))
+    return coq_type(t)
+
+
+def _pos(n):
+    return (n.lineno, n.col_offset)
+
+
+class TX7(TX):
+    def __init__(self, known, raises, fd):
+        super().__init__(known, raises)
+        self.fd = fd
+        self.brk = None          # inside a loop that contains `break`: env -> the state of the loop with the stop flag set
+        self.loops = [n for n in ast.walk(fd) if isinstance(n, (ast.For, ast.While, ast.AsyncFor))]
+
+    # ---- helpers
+    method_only = ()             # names the module binds only as methods (class attributes: invisible from inside a function body)
+
+    def builtin(self, name, node, env):
+        if name in env or (self.module_names.get(name) is not None and name not in self.method_only):
+            die(node, 'the name %s is bound by the source, the translator reads it as the builtin' % name)
+
+    def is_tie_class(self, node, env):
+        return (isinstance(node, ast.Name) and node.id == 'Tie' and 'Tie' not in env and self.module_names.get('Tie') == 'class:frozenset') or (
+            ast.unparse(node) == 'votelib.evaluate.core.Tie' and 'votelib' not in env and 'votelib.evaluate.core' in self.imports)
+
+    def tie_test(self, test, env):
+        """isinstance(x, Tie) on a local x that is an item of a selection -> the reference of x, else None"""
+        if (isinstance(test, ast.Call) and isinstance(test.func, ast.Name) and test.func.id == 'isinstance' and len(test.args) == 2
+                and not test.keywords and isinstance(test.args[0], ast.Name) and self.is_tie_class(test.args[1], env)):
+            self.builtin('isinstance', test, env)
+            r = test.args[0].id
+            if r in env and env[r][1] == T_RES:
+                return r
+        return None
+
+    def method_key(self, kn, env):
+        """key=l.index / key=d.get -> (coq key function, order on keys, exception of the sort, sort function)"""
+        if isinstance(kn, ast.Attribute) and self.ref(kn.value) is not None and self.ref(kn.value) in env:
+            text, ty = env[self.ref(kn.value)]
+            if kn.attr == 'index' and ty == TL(T_C):
+                return '(py_list_index %s)' % text, 'Z.leb', 'PyValueError', 'py_sort_optkey'
+            if kn.attr == 'get' and ty == VOTES:
+                return '(py_dict_get %s)' % text, 'Qle_bool', 'PyTypeError', 'py_sort_nonekey'
+        return None
+
+    def sort_term(self, node, kw, subject, env):
+        if set(kw) - {'key', 'reverse'} or 'key' not in kw:
+            die(node, 'sort arguments')
+        mk = self.method_key(kw['key'], env)
+        if mk is None:
+            die(node, 'sort key')
+        rv = 'false'
+        if 'reverse' in kw:
+            t, ty = self.expr(kw['reverse'], env)
+            if ty != T_B:
+                die(node, 'reverse= of type %s' % (ty,))
+            rv = t
+        return '(%s %s %s %s %s)' % (mk[3], mk[0], mk[1], subject, rv), mk[2]
+
+    def mentioned_after(self, name, s):
+        end = (s.end_lineno, s.end_col_offset)
+        return any(isinstance(n, ast.Name) and n.id == name and _pos(n) >= end for n in ast.walk(self.fd))
+
+    def inside_loop(self, s):
+        return any(s is n for lp in self.loops for n in ast.walk(lp))
+
+    # ---- expressions
+    def expr(self, e, env):
+        if isinstance(e, ast.Subscript) and not isinstance(e.slice, ast.Slice):
+            r = self.ref(e.value)
+            if r is not None and r in env and isinstance(env[r][1], tuple) and env[r][1][0] == 'D':
+                k = self.expr(e.slice, env)
+                if k[1] != env[r][1][1]:
+                    die(e, 'key of type %s' % (k[1],))
+                return self.hoist('(py_tdict_get %s %s)' % (env[r][0], k[0]), 'PyKeyError', env[r][1][2], e)
+        if isinstance(e, ast.Subscript) and isinstance(e.slice, ast.Slice) and e.slice.upper is None and e.slice.step is None \
+                and e.slice.lower is not None:
+            a, n = self.expr(e.value, env), self.expr(e.slice.lower, env)
+            if a[1][0] == 'L' and n[1] == T_Z:
+                return '(py_slice_from %s %s)' % (a[0], n[0]), a[1]
+            die(e, 'slice of a %s from a %s' % (a[1], n[1]))
+        if isinstance(e, ast.Compare) and len(e.ops) == 1 and isinstance(e.ops[0], (ast.In, ast.NotIn)):
+            r = self.ref(e.comparators[0])
+            if r is not None and r in env and isinstance(env[r][1], tuple) and env[r][1][0] == 'D':
+                k = self.expr(e.left, env)
+                if k[1] != env[r][1][1]:
+                    die(e, 'key of type %s' % (k[1],))
+                t = '(py_tdict_mem %s %s)' % (env[r][0], k[0])
+                return (t if isinstance(e.ops[0], ast.In) else '(negb %s)' % t), T_B
+        return super().expr(e, env)
+
+    def call(self, e, env):
+        fn, name = e.func, ast.unparse(e.func)
+        kw = {k.arg: k.value for k in e.keywords}
+        args = e.args
+        if None not in kw and not any(isinstance(a, ast.Starred) for a in args):
+            if name == 'sorted' and len(args) == 1 and 'key' in kw and self.method_key(kw['key'], env) is not None:
+                self.builtin('sorted', e, env)
+                a = self.expr(args[0], env)
+                if a[1] not in (TL(T_C), TS(T_C)):
+                    die(e, 'sorted (by a method key) of a %s' % (a[1],))
+                if a[1] == TS(T_C) and self.method_key(kw['key'], env)[3] != 'py_sort_optkey':
+                    die(e, 'sorted of a set by a key that is not injective')
+                term, exn = self.sort_term(e, kw, a[0], env)
+                return self.hoist(term, exn, TL(T_C), e)
+            if name == 'any' and len(args) == 1 and not kw and isinstance(args[0], ast.GeneratorExp) and len(args[0].generators) == 1:
+                g = args[0].generators[0]
+                if not g.ifs and not g.is_async and isinstance(g.target, ast.Name):
+                    self.builtin('any', e, env)
+                    it, ety = self.iterable(g.iter, env)
+                    env2 = dict(env)
+                    env2[g.target.id] = ('it_', ety)
+                    if self.tie_test(args[0].elt, env2) == g.target.id:
+                        return '(existsb (fun it_ => match it_ with TieR _ => true | Cand _ => false end) %s)' % it, T_B
+                die(e, 'any(..) form')
+            if isinstance(fn, ast.Attribute) and fn.attr == 'evaluate' and not kw and self.ref(fn.value) is not None \
+                    and self.ref(fn.value) in env and env[self.ref(fn.value)][1][0] == 'F' and env[self.ref(fn.value)][1] != T_SEL:
+                f = env[self.ref(fn.value)]
+                if len(f[1][1]) != len(args):
+                    die(e, 'evaluate call')
+                out = []
+                for a, pt in zip(args, f[1][1]):
+                    x = self.expr(a, env)
+                    out.append(self.coerce(x[0], x[1], pt, e))
+                return '(%s %s)' % (f[0], ' '.join(out)), f[1][2]
+        return super().call(e, env)
+
+    # ---- statements
+    def sort_stmt(self, s):
+        if (isinstance(s, ast.Expr) and isinstance(s.value, ast.Call) and isinstance(s.value.func, ast.Attribute)
+                and s.value.func.attr == 'sort' and self.ref(s.value.func.value) is not None and not s.value.args
+                and all(k.arg is not None for k in s.value.keywords)):
+            return self.ref(s.value.func.value)
+        return None
+
+    def block(self, stmts, env, final):
+        stmts = _strip(stmts)
+        if not stmts:
+            return super().block(stmts, env, final)
+        s, rest = stmts[0], stmts[1:]
+        if isinstance(s, ast.Break):
+            if self.brk is None:
+                die(s, 'break outside a translated loop')
+            return self.brk(env)          # whatever follows in the iteration is skipped
+        r = self.sort_stmt(s)
+        if r is not None:
+            if r not in env or r not in self.fresh or env[r][1] != TL(T_C):
+                die(s, 'in-place sort of a list that may be shared with the caller (or is not a list of candidates)')
+            term, exn = self.sort_term(s, {k.arg: k.value for k in s.value.keywords}, env[r][0], env)
+            var, ty = self.hoist(term, exn, TL(T_C), s)
+            hs = self.take()
+            env = dict(env)
+            nm = self.newname(env, r)
+            env[r] = (nm, ty)
+            return self.wraph(hs, 'let %s := %s in\n  %s' % (nm, var, self.block(rest, env, final)))
+        if isinstance(s, ast.Assign) and len(s.targets) == 1 and isinstance(s.targets[0], ast.Name) and isinstance(s.value, ast.Name) \
+                and s.value.id in env and s.value.id in self.fresh and s.value.id != s.targets[0].id \
+                and isinstance(env[s.value.id][1], tuple) and env[s.value.id][1][0] == 'L':
+            # y = x: two names of ONE list; translated only when x is never mentioned again (then y simply takes its place)
+            x, y = s.value.id, s.targets[0].id
+            if self.inside_loop(s) or self.mentioned_after(x, s):
+                die(s, 'second name for a list that is still used under its first name')
+            env = dict(env)
+            cur = env[x]
+            env[x] = (None, 'DEAD')
+            nm = self.newname(env, y)
+            env[y] = (nm, cur[1])
+            self.fresh.discard(x)
+            self.fresh.add(y)
+            return 'let %s := %s in\n  %s' % (nm, cur[0], self.block(rest, env, final))
+        if isinstance(s, ast.Assign) and len(s.targets) == 1 and isinstance(s.targets[0], ast.Subscript) \
+                and not isinstance(s.targets[0].slice, ast.Slice) and self.ref(s.targets[0].value) in env:
+            r = self.ref(s.targets[0].value)
+            dty = env[r][1]
+            if dty == 'EMPTYDICT' or (isinstance(dty, tuple) and dty[0] == 'D'):
+                v = self.expr(s.value, env)               # the value is evaluated before the key
+                k = self.expr(s.targets[0].slice, env)
+                hs = self.take()
+                env = self.refined(env)
+                if dty == 'EMPTYDICT':
+                    if k[1] != T_TIE:
+                        die(s, 'dictionary keyed by a %s' % (k[1],))
+                    dty, cur = TD(k[1], v[1]), '[]'
+                else:
+                    cur = env[r][0]
+                    if (k[1], v[1]) != (dty[1], dty[2]):
+                        die(s, 'item %s: %s stored in a %s' % (k[1], v[1], dty))
+                env = dict(env)
+                nm = self.newname(env, r)
+                env[r] = (nm, dty)
+                return self.wraph(hs, 'let %s := (py_tdict_set %s %s %s) in\n  %s' % (nm, cur, k[0], v[0], self.block(rest, env, final)))
+        if isinstance(s, ast.Delete) and len(s.targets) == 1 and isinstance(s.targets[0], ast.Subscript) \
+                and not isinstance(s.targets[0].slice, ast.Slice) and self.ref(s.targets[0].value) in env:
+            r = self.ref(s.targets[0].value)
+            dty = env[r][1]
+            if isinstance(dty, tuple) and dty[0] == 'D':
+                k = self.expr(s.targets[0].slice, env)
+                if k[1] != dty[1]:
+                    die(s, 'key of type %s' % (k[1],))
+                var, _ = self.hoist('(py_tdict_del %s %s)' % (env[r][0], k[0]), 'PyKeyError', dty, s)
+                hs = self.take()
+                env = dict(self.refined(env))
+                nm = self.newname(env, r)
+                env[r] = (nm, dty)
+                return self.wraph(hs, 'let %s := %s in\n  %s' % (nm, var, self.block(rest, env, final)))
+        if isinstance(s, ast.If):
+            r = self.tie_test(s.test, env)
+            if r is not None:
+                et, ee = dict(env), dict(env)
+                nt, ne = self.newname(env, r), self.newname(env, r)
+                et[r], ee[r] = (nt, T_TIE), (ne, T_C)
+                fresh0 = set(self.fresh)
+                a = self.block(list(s.body) + rest, et, final)
+                self.fresh = set(fresh0)
+                b = self.block(list(s.orelse) + rest, ee, final)
+                return '(match %s with TieR %s => %s | Cand %s => %s end)' % (env[r][0], nt, a, ne, b)
+        if isinstance(s, ast.For) and self.needs7(s):
+            return self.for_fold7(s, rest, env, final)
+        if isinstance(s, ast.Return) and not rest and s.value is not None and self.reach is None and not self.in_fold:
+            k = self.tail_call(s.value)
+            if k is not None and k.get('module') is not None and self.ret_type == TL(T_RES) and k['ret'] == TL(T_C):
+                if k['module'] not in self.imports or ast.unparse(s.value.func).split('.')[0] in env:
+                    die(s, 'the source does not reach %s through a plain import' % ast.unparse(s.value.func))
+                t, _ = self.known_call(k, s.value, env, True)
+                return self.wraph(self.take(), '(match %s with inl r_ => inl (map (@Cand C) r_) | inr e_ => inr e_ end)' % t)
+        return super().block(stmts, env, final)
+
+    # ---- loops with break / exceptions / dictionary updates
+    def needs7(self, s):
+        for n in ast.walk(s):
+            if isinstance(n, (ast.Break, ast.Delete)):
+                return True
+            if isinstance(n, ast.Subscript) and (isinstance(n.ctx, ast.Store) or not isinstance(n.slice, ast.Slice)):
+                return True
+            if isinstance(n, ast.Call) and ast.unparse(n.func) in ('isinstance', 'sorted'):
+                return True
+            if isinstance(n, ast.Attribute) and n.attr == 'sort':
+                return True
+        return False
+
+    def loop_assigned7(self, stmts, out):
+        for s in _strip(stmts):
+            if isinstance(s, ast.Break):
+                continue
+            if isinstance(s, ast.If):
+                self.loop_assigned7(s.body, out)
+                self.loop_assigned7(s.orelse, out)
+                continue
+            if self.sort_stmt(s) is not None:
+                refs = [self.sort_stmt(s)]
+            elif isinstance(s, ast.Assign) and len(s.targets) == 1 and isinstance(s.targets[0], ast.Subscript) \
+                    and self.ref(s.targets[0].value) is not None:
+                refs = [self.ref(s.targets[0].value)]
+            elif isinstance(s, ast.Delete) and len(s.targets) == 1 and isinstance(s.targets[0], ast.Subscript) \
+                    and self.ref(s.targets[0].value) is not None:
+                refs = [self.ref(s.targets[0].value)]
+            else:
+                refs = self.loop_assigned([s], [])
+            for r in refs:
+                if r not in out:
+                    out.append(r)
+        return out
+
+    def infer7(self, stmts, env, untyped):
+        """types of the loop variables that start as [] / {} / None: from the appends / stores in the body that can be typed, iterated
+           (the type of one may be needed for the other)"""
+        found = {}
+        saved = (self.pending, list(self.notes), set(self.fresh), self.nhoist, list(self.refine), self.brk)
+        try:
+            for _ in range(4):
+                before = dict(found)
+                self.pending, self.refine = ([] if self.raises else None), []
+                self.infer7_block(stmts, dict(env), untyped, found)
+                if found == before:
+                    break
+        finally:
+            self.pending, self.notes, self.fresh, self.nhoist, self.refine, self.brk = saved
+        return found
+
+    def infer7_block(self, stmts, env, untyped, found):
+        for s in _strip(stmts):
+            for r, ty in found.items():
+                env[r] = (self.ident(r), ty)
+            if self.pending is not None:
+                self.pending = []
+            try:
+                ap = self.append_stmt(s)
+                if ap is not None:
+                    if untyped.get(ap[0]) == 'EMPTYLIST' and ap[0] not in found:
+                        found[ap[0]] = TL(self.expr(ap[1], env)[1])
+                elif isinstance(s, ast.Assign) and len(s.targets) == 1:
+                    tg = s.targets[0]
+                    if isinstance(tg, ast.Subscript) and not isinstance(tg.slice, ast.Slice):
+                        r = self.ref(tg.value)
+                        if untyped.get(r) == 'EMPTYDICT' and r not in found:
+                            v, k = self.expr(s.value, env), self.expr(tg.slice, env)
+                            if k[1] == T_TIE:
+                                found[r] = TD(k[1], v[1])
+                    else:
+                        t, ty = self.expr(s.value, env)
+                        if isinstance(tg, ast.Tuple):
+                            e2, _ = self.bind_target(tg, t, ty, env, s)
+                            env.update(e2)
+                        elif self.ref(tg) is not None:
+                            r = self.ref(tg)
+                            if r in untyped:
+                                if untyped[r] == 'NONE' and r not in found:
+                                    found[r] = TO(ty)
+                                elif untyped[r] == 'EMPTYLIST' and r not in found and ty[0] == 'L':
+                                    found[r] = ty
+                            else:
+                                env[r] = (self.ident(r), ty)
+                elif isinstance(s, ast.If):
+                    r = self.tie_test(s.test, env)
+                    et, ee = dict(env), dict(env)
+                    if r is not None:
+                        et[r], ee[r] = (env[r][0], T_TIE), (env[r][0], T_C)
+                    self.infer7_block(s.body, et, untyped, found)
+                    self.infer7_block(s.orelse, ee, untyped, found)
+            except Unsupported:
+                continue
+
+    def for_fold7(self, s, rest, env, final):
+        if s.orelse:
+            die(s, 'for-else')
+        if self.in_fold:
+            die(s, 'nested loop')
+        body = _strip(s.body)
+        for st_ in body:
+            for n in ast.walk(st_):
+                if isinstance(n, (ast.Return, ast.Raise, ast.Continue, ast.For, ast.While, ast.AsyncFor, ast.Try, ast.With,
+                                  ast.FunctionDef, ast.AsyncFunctionDef, ast.ClassDef, ast.Lambda, ast.Yield, ast.YieldFrom, ast.Await,
+                                  ast.Global, ast.Nonlocal, ast.NamedExpr)):
+                    die(n, 'loop body form (%s)' % type(n).__name__)
+        it, ety = self.iterable(s.iter, env)
+        if self.pending:
+            die(s, 'operation that may raise in the iterable of a loop')
+        targets = [n.id for n in ast.walk(s.target) if isinstance(n, ast.Name)]
+        assigned = self.loop_assigned7(body, [])
+        if any(r.startswith('self.') for r in assigned):
+            die(s, 'attribute assigned inside a loop')
+        if set(assigned) & set(targets):
+            die(s, 'loop target reassigned inside the loop')
+        state = [r for r in assigned if r in env]
+        local = [r for r in assigned if r not in env]
+        if not state:
+            die(s, 'loop without an effect on the translated locals')
+        for r in state:
+            if _mentions(s.iter, r):
+                die(s, 'loop over a value its own body changes')
+        has_break = any(isinstance(n, ast.Break) for st_ in body for n in ast.walk(st_))
+        env2, pre = self.bind_target(s.target, 'it_', ety, env, s)
+        untyped = {r: env[r][1] for r in state if env[r][1] in ('EMPTYLIST', 'NONE', 'EMPTYDICT')}
+        found = self.infer7(body, env2, untyped)
+        types, inits = {}, {}
+        for r in state:
+            t0, ty0 = env[r]
+            if r in untyped:
+                if r not in found:
+                    die(s, 'the loop never gives %s a value of a known type' % r)
+                types[r] = found[r]
+                inits[r] = '(%s : %s)' % ('None' if ty0 == 'NONE' else '[]', coq_type7(found[r]))
+            else:
+                if not isinstance(ty0, (str, tuple)) or ty0 in ('EMPTYSET', 'DEAD', 'KEYFN'):
+                    die(s, 'loop variable %s' % r)
+                types[r] = ty0
+                inits[r] = t0
+        names = (['stop'] if has_break else []) + state      # components of the state tuple
+
+        def tuple_of(parts):
+            return parts[0] if len(parts) == 1 else '(%s, %s)' % (parts[0], tuple_of(parts[1:]))
+
+        def projections(var):
+            out, cur = [], var
+            for i in range(len(names)):
+                if i == len(names) - 1:
+                    out.append(cur)
+                else:
+                    out.append('(fst %s)' % cur)
+                    cur = '(snd %s)' % cur
+            return out
+        env3 = dict(env2)
+        lets = ''
+        fresh0 = set(self.fresh)
+        prs = projections('st_')
+        for r, pr in zip(state, prs[1:] if has_break else prs):
+            nm = self.newname(env3, r)
+            env3[r] = (nm, types[r])
+            lets += 'let %s := %s in ' % (nm, pr)
+            if (r in untyped and untyped[r] == 'EMPTYLIST') or r in self.fresh:
+                self.fresh.add(r)
+        ok_ = (lambda t: '(inl %s)' % t) if self.raises else (lambda t: t)
+
+        def fin(e2, stop='false'):
+            parts = [stop] if has_break else []
+            for r in state:
+                t, ty = e2[r]
+                want = types[r]
+                if ty == want:
+                    parts.append(t)
+                elif want[0] == 'O' and ty == want[1]:
+                    parts.append('(Some %s)' % t)
+                elif ty in (T_Z, T_Q, TL(T_Z)):
+                    parts.append(self.coerce(t, ty, want, s))
+                else:
+                    die(s, 'loop variable %s ends an iteration as %s' % (r, ty))
+            return ok_(tuple_of(parts))
+        saved = (self.pending, self.in_fold, self.brk)
+        self.pending, self.in_fold = ([] if self.raises else None), True
+        self.brk = (lambda e2: fin(e2, 'true')) if has_break else None
+        try:
+            step = self.block(body, env3, fin)
+        finally:
+            self.pending, self.in_fold, self.brk = saved
+        self.fresh = fresh0 | {r for r in state if r in self.fresh and (r in fresh0 or r in untyped)}
+        if has_break:
+            step = '(if %s then %s else %s%s%s)' % (prs[0], ok_('st_'), lets, pre, step)
+        else:
+            step = '%s%s%s' % (lets, pre, step)
+        init = tuple_of((['false'] if has_break else []) + [inits[r] for r in state])
+        self.nhoist += 1
+        stv = "st'%d" % self.nhoist
+        env = dict(env)
+        after = ''
+        pra = projections(stv)
+        for r, pr in zip(state, pra[1:] if has_break else pra):
+            nm = self.newname(env, r)
+            env[r] = (nm, types[r])
+            after += 'let %s := %s in ' % (nm, pr)
+        for r in local + targets:
+            env[r] = (None, 'DEAD')
+        if self.raises:
+            def prod_of(parts):
+                return parts[0] if len(parts) == 1 else '(%s * %s)' % (parts[0], prod_of(parts[1:]))
+            sty = prod_of((['bool'] if has_break else []) + [coq_type7(types[r]) for r in state])
+            loop = '(fold_left (fun (sr_ : %s + pyexn) it_ => match sr_ with inr e_ => inr e_ | inl st_ => %s end) %s (inl %s))' % (sty, step, it, init)
+            return '(match %s with inr e_ => inr e_ | inl %s => %s\n  %s end)' % (loop, stv, after, self.block(rest, env, final))
+        loop = '(fold_left (fun st_ it_ => %s) %s %s)' % (step, it, init)
+        return 'let %s := %s in\n  %s\n  %s' % (stv, loop, after, self.block(rest, env, final))
+
+
+C16_HEADER = """(* GENERATED by tools/py2v.py (part 6) from %s -- do not edit. *)
+From Coq Require Import String.
+From Coq Require Import ZArith QArith List Bool.
+From VL Require Import Prelude.PyDict Prelude.PyNum Prelude.PyList Prelude.PySeq Prelude.PyTie Model.GetNBest.
+Import ListNotations.
+(* Model.GetNBest is imported for the type of selection items ([res]: Cand c | TieR l) and for [sort_desc Qle_bool], the reading of
+   votelib.util.sorted_votes (tied to the source by Props/GenTie_Core.v); list.index, the in-place sorts, l[n:], the dictionary keyed
+   by ties are read by Prelude/PyTie.v; an operation that may raise is a match on its optional result, in evaluation order; a loop is a
+   fold whose state carries the locals it assigns (and whether it was left by break). *)
+"""
+P_LIST = ('candidate_list', 'candidate_list', TL(T_C))
+C16_OPENLIST = ('votelib/evaluate/openlist.py', [
+    dict(name='ThresholdOpenList_evaluate', cls='ThresholdOpenList', fn='evaluate', raises=True, ret=TL(T_C), ctor={'quota_function': '*'},
+         params=[('jump_fraction', 'self.jump_fraction', TO(T_Q)), ('quota_function', 'self.quota_function', TO(TFUN([T_Q, T_Z], T_Q))),
+                 ('take_higher', 'self.take_higher', T_B), P_AE, ('list_precedence', 'self.list_precedence', T_B),
+                 ('votes', 'votes', VOTES), ('n_seats', 'n_seats', T_Z), P_LIST]),
+])
+C16_TIE_CORE = ('votelib/evaluate/core.py', [
+    dict(name='Tie_any', cls='Tie', fn='any', decorator='staticmethod', raises=False, ret=T_B, params=[('result', 'result', TL(T_RES))],
+         export='votelib.evaluate.core.Tie.any'),
+    dict(name='Tie_break_by_list', cls='Tie', fn='break_by_list', decorator='classmethod', raises=True, ret=TL(T_C),
+         params=[('elected', 'elected', TL(T_RES)), ('breaker', 'breaker', TL(T_C))], export='votelib.evaluate.core.Tie.break_by_list'),
+])
+C16_TIE_OPENLIST = ('votelib/evaluate/openlist.py', [
+    dict(name='ListOrderTieBreaker_evaluate', cls='ListOrderTieBreaker', fn='evaluate', raises=True, ret=TL(T_RES),
+         params=[('evaluator', 'self.evaluator', TFUN([VOTES, T_Z], TL(T_RES))), ('votes', 'votes', VOTES), ('n_seats', 'n_seats', T_Z), P_LIST]),
+])
+
+
+def translate_bodies7(path, defs, known0=None):
+    """whole method bodies with TX7; methods may carry exactly the decorator declared for them (staticmethod / classmethod)"""
+    tree = ast.parse(open(path).read())
+    classes = {n.name: n for n in tree.body if isinstance(n, ast.ClassDef)}
+    rebound = _rebound_names(tree)
+    module_names = _module_names(tree)
+    imports = {al.name for n in tree.body if isinstance(n, ast.Import) for al in n.names if al.asname is None}
+    out, status, notes, exported = [], {}, {}, {}
+    known = dict(known0 or {})
+    as_method = collections_counter(m.name for c in ast.walk(tree) if isinstance(c, ast.ClassDef) for m in c.body
+                                    if isinstance(m, (ast.FunctionDef, ast.AsyncFunctionDef)))
+    stores = collections_counter(n.id for n in ast.walk(tree) if isinstance(n, ast.Name) and isinstance(n.ctx, (ast.Store, ast.Del)))
+    others = collections_counter(
+        [n.name for n in ast.walk(tree) if isinstance(n, (ast.FunctionDef, ast.AsyncFunctionDef, ast.ClassDef))]
+        + [a.arg for n in ast.walk(tree) if isinstance(n, (ast.FunctionDef, ast.AsyncFunctionDef, ast.Lambda))
+           for a in n.args.posonlyargs + n.args.args + n.args.kwonlyargs + ([n.args.vararg] if n.args.vararg else []) + ([n.args.kwarg] if n.args.kwarg else [])]
+        + [(al.asname or al.name.split('.')[0]) for n in ast.walk(tree) if isinstance(n, (ast.Import, ast.ImportFrom)) for al in n.names]
+        + [n.name for n in ast.walk(tree) if isinstance(n, ast.ExceptHandler) and n.name]
+        + [x for n in ast.walk(tree) if isinstance(n, (ast.Global, ast.Nonlocal)) for x in n.names])
+    method_only = tuple(k for k, v in as_method.items() if others.get(k, 0) == v and not stores.get(k))
+    for d in defs:
+        name = d['name']
+        try:
+            cd = classes.get(d['cls'])
+            if cd is None:
+                raise Unsupported('class %s not found' % d['cls'])
+            ms = [m for m in cd.body if isinstance(m, ast.FunctionDef) and m.name == d['fn']]
+            if len(ms) != 1:
+                raise Unsupported('method %s.%s not found exactly once' % (d['cls'], d['fn']))
+            fd = ms[0]
+            decs = [ast.unparse(x) for x in fd.decorator_list]
+            if decs != ([d['decorator']] if d.get('decorator') else []):
+                die(fd, 'decorators %s' % decs)
+            if d.get('decorator') and (module_names.get(d['decorator']) is not None):
+                die(fd, 'the module binds the name %s' % d['decorator'])
+            if fd.args.vararg or fd.args.kwarg or fd.args.kwonlyargs or fd.args.posonlyargs or fd.args.defaults:
+                die(fd, 'parameter list')
+            pyparams = [a.arg for a in fd.args.args[(0 if d.get('decorator') == 'staticmethod' else 1):]]
+            attrs = [r[5:] for _, r, _ in d['params'] if r.startswith('self.')]
+            _check_ctor(cd, attrs, d.get('ctor', {}))
+            moved = _attr_stores_elsewhere(cd, [a for a in attrs if a not in d.get('ctor', {})], ())
+            if moved:
+                die(cd, 'attribute(s) %s assigned outside __init__' % sorted(moved))
+            used = {n.id for n in ast.walk(fd) if isinstance(n, ast.Name)} & rebound
+            if used:
+                die(fd, 'the module rebinds %s, which the translator reads with a fixed meaning' % sorted(used))
+            tx = TX7(known, bool(d.get('raises')), fd)
+            tx.imports, tx.module_names = imports, module_names
+            tx.method_only = method_only
+            tx.ret_type = d['ret']
+            env = {}
+            declared = []
+            for cn, r, ty in d['params']:
+                if not r.startswith('self.'):
+                    if r not in pyparams:
+                        die(fd, 'no parameter %s' % r)
+                    declared.append(r)
+                env[r] = (cn, ty)
+            if declared != pyparams:
+                die(fd, 'parameters %s (declared: %s)' % (pyparams, declared))
+            text = tx.block(fd.body, env, None)
+            plist = ' '.join('(%s : %s)' % (cn, coq_type7(ty)) for cn, r, ty in d['params'])
+            rty = coq_type7(tx.ret_type) + (' + pyexn' if tx.raises else '')
+            com = ''.join('  (* %s *)\n' % n for n in tx.notes)
+            out.append('%sDefinition %s %s : %s :=\n  %s.' % (com, name, plist, rty, text))
+            status[name] = 'ok'
+            if tx.notes:
+                notes[name] = tx.notes
+            if d.get('export'):
+                exported[d['export']] = dict(coq=name, params=[(cn, ty, None) for cn, r, ty in d['params']], ret=tx.ret_type,
+                                             raises=tx.raises, module='.'.join(d['export'].split('.')[:-2]))
+        except Unsupported as e:
+            status[name] = 'unsupported: %s' % e
+    missing = [d['name'] for d in defs if status.get(d['name']) != 'ok']
+    return out, status, missing, notes, exported
+
+
+def write_c16_units(repo, outdir):
+    """units OpenlistEval and TieBreak -> their STATUS.json entries"""
+    st = {}
+    rel = C16_OPENLIST[0]
+    try:
+        defs, status, missing, notes, _ = translate_bodies7(os.path.join(repo, rel), C16_OPENLIST[1])
+        text = (C16_HEADER % rel) + '\n' + '\n\n'.join(defs) + '\n'
+        st['OpenlistEval'] = dict(status='ok' if not missing else 'partial', functions=status, missing=missing, source=rel, notes=notes)
+    except (Unsupported, SyntaxError, OSError) as e:
+        text = C16_HEADER % rel
+        st['OpenlistEval'] = dict(status='failed', reason=str(e), source=rel, missing=[d['name'] for d in C16_OPENLIST[1]])
+    texts = {'OpenlistEval.v': text}
+    srcs = '%s, %s' % (C16_TIE_CORE[0], C16_TIE_OPENLIST[0])
+    allnames = [d['name'] for d in C16_TIE_CORE[1] + C16_TIE_OPENLIST[1]]
+    try:
+        d1, s1, m1, n1, exported = translate_bodies7(os.path.join(repo, C16_TIE_CORE[0]), C16_TIE_CORE[1])
+        # without the translated Tie functions the calls inside ListOrderTieBreaker.evaluate are not translated at all (fail closed)
+        d2, s2, m2, n2, _ = translate_bodies7(os.path.join(repo, C16_TIE_OPENLIST[0]), C16_TIE_OPENLIST[1], exported if not m1 else {})
+        s1.update(s2)
+        n1.update(n2)
+        text = (C16_HEADER % srcs) + '\n' + '\n\n'.join(d1 + d2) + '\n'
+        st['TieBreak'] = dict(status='ok' if not (m1 + m2) else 'partial', functions=s1, missing=m1 + m2, source=srcs, notes=n1)
+    except (Unsupported, SyntaxError, OSError) as e:
+        text = C16_HEADER % srcs
+        st['TieBreak'] = dict(status='failed', reason=str(e), source=srcs, missing=allnames)
+    texts['TieBreak.v'] = text
+    for fn_, t_ in texts.items():
+        dst = os.path.join(outdir, fn_)
+        old = open(dst).read() if os.path.exists(dst) else None
+        if old != t_:
+            open(dst, 'w').write(t_)
+    return st
 
 
 if __name__ == '__main__':
